@@ -118,6 +118,9 @@ class Type:
     def name(self):
         if self.is_builtin:
             ret = self._type.name.lower()
+        elif self._type == BuiltinType.UNKNOWN:
+            # the type of an ill-typed expression, e.g. "a" * 2
+            ret = 'unknown'
         else:
             ret = self.user_type_name
         if self.is_array:
